@@ -105,7 +105,13 @@ def strval(v, tb, depth=0):
         except (TypeError, ValueError):
             return None
     if nm == "cat":
-        a, b = strval(args[0], tb, depth + 1), strval(args[1], tb, depth + 1)
+        def part(x):
+            # a number interpolated into a text (f"{e}f{nbytes}") prints as its decimal digits
+            n_ = numval(x, tb)
+            if n_ is not None and n_.is_const() and n_.const_value().denominator == 1:
+                return str(int(n_.const_value()))
+            return strval(x, tb, depth + 1)
+        a, b = part(args[0]), part(args[1])
         return None if a is None or b is None else a + b
     if nm in ("call:np.dtype", "call:numpy.dtype", "call:struct.Struct", "structof", "call:str") and len(args) >= 1:
         return strval(args[0], tb, depth + 1)
